@@ -43,7 +43,7 @@ def _guards(node):
     return out
 
 
-def traversals(fi, param):
+def traversals(fi, param, prog=None, selfname="self", _depth=0):
     """List of (slot, line, assigned_back, expr) for visits of ``param.slot``:
     calls of self._visit_* / map_and_filter(self._visit_*, param.slot) in fi."""
     out = []
@@ -54,15 +54,35 @@ def traversals(fi, param):
             continue
         f = cn.expr(n.func)
         slot = None
-        if isinstance(f, ast.Attribute) and isinstance(f.value, ast.Name) and f.value.id == "self" and f.attr.startswith("_visit"):
+        if isinstance(f, ast.Attribute) and isinstance(f.value, ast.Name) and f.value.id == selfname and f.attr.startswith("_visit"):
             for a in [cn.expr(x) for x in n.args]:
                 if isinstance(a, ast.Attribute) and isinstance(a.value, ast.Name) and a.value.id == param:
                     slot = a.attr
         elif isinstance(f, ast.Name) and f.id in ("map_and_filter", "map", "filter") and len(n.args) == 2:
             fn, it = [cn.expr(x) for x in n.args]
-            if isinstance(fn, ast.Attribute) and isinstance(fn.value, ast.Name) and fn.value.id == "self" and fn.attr.startswith("_visit"):
+            if isinstance(fn, ast.Attribute) and isinstance(fn.value, ast.Name) and fn.value.id == selfname and fn.attr.startswith("_visit"):
                 if isinstance(it, ast.Attribute) and isinstance(it.value, ast.Name) and it.value.id == param:
                     slot = it.attr
+        if slot is None and prog is not None and _depth < 2 and not (isinstance(f, ast.Attribute) and f.attr.startswith("_visit")):
+            # the node handed to a helper (module function or non-_visit method) that traverses some of its slots
+            idx = [i for i, a in enumerate(n.args) if isinstance(a, ast.Name) and a.id == param]
+            if idx and not n.keywords:
+                for callee in prog.resolve_call(fi, n):
+                    if callee.module is not fi.module or callee.name == "__init__":
+                        continue
+                    ps = callee.params
+                    off = 1 if (callee.cls is not None and ps and ps[0] in ("self", "cls")) else 0
+                    if idx[0] + off >= len(ps):
+                        continue
+                    sub_self = ps[0] if off else None
+                    if not off:
+                        sidx = [i for i, a in enumerate(n.args) if isinstance(a, ast.Name) and a.id == selfname]
+                        sub_self = ps[sidx[0]] if sidx and sidx[0] < len(ps) else None
+                    if sub_self is None:
+                        continue
+                    for sslot, _l, sback, _n in traversals(callee, ps[idx[0] + off], prog, sub_self, _depth + 1):
+                        out.append((sslot, n.lineno, sback, n))
+            continue
         if slot is None:
             continue
         # is an enclosing call also a traversal (list(map_and_filter(...)))? take the outermost expression's statement
@@ -173,7 +193,7 @@ def check(prog, run):
             continue
         run.looked_at(m)
         param = m.params[1]
-        trs = traversals(m, param)
+        trs = traversals(m, param, prog)
         # class-specific branches: isinstance(param, _ast.K) guards
         def guarded_classes(node):
             cur = node
@@ -203,14 +223,11 @@ def check(prog, run):
             for slot, line, back, n in got:
                 if slot in want:
                     # the traversal may depend only on the node's class and on that slot being present
+                    from ..canon import Canon
+                    mcn = Canon(m.node)
                     for cond in _enclosing_conditions(m, n):
-                        for atom in boolx.atoms(cond):
+                        for atom in boolx.atoms(mcn.expr(cond)):   # locals naming the slot (or a test on it) are seen through
                             a = atom
-                            if a.isidentifier():
-                                binds = [x.value for x in own_nodes(m.node) if isinstance(x, ast.Assign) and len(x.targets) == 1
-                                         and isinstance(x.targets[0], ast.Name) and x.targets[0].id == a]
-                                if len(binds) == 1:
-                                    a = " ".join(ast.unparse(binds[0]).split())
                             ok = ("isinstance(%s" % param) in a or ("%s.__class__" % param) in a or ("type(%s)" % param) in a \
                                 or (("%s.%s" % (param, slot)) in a and a.count("%s." % param) == a.count("%s.%s" % (param, slot)))
                             if not ok:
